@@ -5,9 +5,10 @@ import gen
 import impl
 import typing_h as T
 
-TABLES = ["Kits", "Enzymes"]
-LAKE_TARGETS = ["Moclo.Props.C04", "Moclo.Tables.Kits", "Moclo.Tables.Enzymes"]
-THEOREMS = ["Moclo.C04." + t for t in ["kit_classes_cut_aligned", "generic_classes_cut_aligned", "marks_and_sites", "accepted_record_fragments", "placeholder_target_tile", "placeholder_target_isRotated", "cutter_sites_plain", "no_inner_cut"]]
+TABLES = ["Kits", "Enzymes", "Enzymes3"]
+LAKE_TARGETS = ["Moclo.Props.C04", "Moclo.Tables.Kits", "Moclo.Tables.Enzymes", "Moclo.Tables.Enzymes3"]
+THEOREMS = ["Moclo.C04." + t for t in ["kit_classes_cut_aligned", "generic_classes_cut_aligned", "marks_and_sites", "accepted_record_fragments", "placeholder_target_tile", "placeholder_target_isRotated", "cutter_sites_plain", "no_inner_cut",
+                                       "three_prime_same_screen", "three_prime_fragments", "three_prime_tile", "three_prime_structures"]]
 # reductions under which a failing case stays a case of this property (see shrink.py)
 SHRINK = {"strings": True}
 RULE = ("every concrete class of the five kits and generic classes over every enzyme geometry; records built "
@@ -94,6 +95,10 @@ def check_three_prime(ctx, case):
     res = T.evaluate(cls, wd)
     ctx.note("3prime:" + res[0])
     ctx.case(case, nontrivial=res[0] == "valid", key=["3p", case["enz"], case["kind"], wd])
+    if enz.fst3 >= 0 and not res[0].startswith("exc"):
+        # both cuts downstream of the site: the model's 3' branch (matchSeq3 / targetOf3 / placeholder3)
+        ctx.op(("EVAL", cls, wd, []), case)
+        ctx.note("3prime-modelled")
     if res[0].startswith("exc"):
         ctx.fail("{} raises {} on {!r}".format(cls.__name__, res[0], wd), case)
     if res[0] != "valid":
